@@ -156,28 +156,47 @@ CLAIMED = {
              "holds with IsLUB/IsGLB over the (infinite) set of time points of the window; the robustness signal of every formula "
              "is a right-continuous step function whose break-points lie among a computed finite candidate set, defined exactly "
              "from the start of the common input domain; the bottom-up evaluator used by the driver equals the point-wise "
-             "definition. Correspondence: the real dense offline evaluate() vs rhoD as step functions (all break-points of both "
-             "sides, bound-shifted input break-points and mid-points), non-decreasing time stamps, start of the domain.",
-        note="Lean kernel + standard axioms; the interval-stack algorithms of the Python code are NOT mirrored: the code is tied to "
-             "the proved semantics by the sampled correspondence only; until/since are read with the left operand on the closed "
-             "interval up to the witness (what the monitors implement); known finding F37 (signals not starting at 0) excluded by region.",
-        technique="Lean 4 proof (step-function theory: finite folds = LUB/GLB over real windows) + differential correspondence against the proved semantics",
+             "definition. M-alg = M-spec: the list algorithms of the dense offline visitor (13-case merge, running extrema, segment "
+             "stacks of the bounded operators, decomposition of bounded since/until) are mirrored statement by statement "
+             "(Rtamt/Dense/Alg.lean) and proved, for every supported formula over well-formed signals that start at 0, to return a "
+             "list with strictly increasing time stamps that starts at the beginning of the domain and equals rhoD at every time of "
+             "the domain, raising nothing (C04_alg_eq_rhoD_partial). Correspondence: the real dense offline evaluate() vs the mirror "
+             "sample by sample (same stamps, same doubles) and vs rhoD as step functions (all break-points of both sides, "
+             "bound-shifted input break-points and mid-points), non-decreasing time stamps, start of the domain.",
+        note="Lean kernel + standard axioms; the mirror of the list algorithms is hand-written and tied to the code by exact "
+             "correspondence of the returned lists (no translator); until/since are read with the left operand on the closed "
+             "interval up to the witness (what the monitors implement); the theorem assumes signals starting at 0 - known finding "
+             "F37 (signals not starting at 0) is excluded by region for the comparison with rhoD, not for the mirror.",
+        technique="Lean 4 proof (step-function theory: finite folds = LUB/GLB over real windows; loop invariants of the merge and of the segment stacks; structural induction) + differential correspondence against the mirror and the proved semantics",
         design="DESIGN.md §4 C04"),
     "C05": dict(
-        text="Partial. Machine-checked (Lean 4): the dense semantics of a past formula at t depends on the input signals up to t "
-             "only (causality), hence any two chunked presentations of the same signals that cover t determine the same value at t "
-             "(and, for bounded future, up to t+hor). The online algorithms (interval stacks with remainders) are not mirrored; they "
-             "are tied to the semantics by exploring, for every generated (specification, signals), all chunkings at the input "
-             "time stamps (up to 64; thorough 512) plus per-variable chunkings: concatenated output has non-decreasing time stamps "
-             "and agrees with rhoD wherever it is defined.",
-        note="Lean kernel + standard axioms for the semantic statements; chunk-independence of the real code is explored, not proved; "
-             "known findings F21 (bounded operators across batches), F30 (two constants), F32 (since) excluded by region.",
-        technique="Lean 4 proof of causality on the dense semantics + exhaustive small-scope exploration of chunkings on the real code",
+        text="Partial (fragment). Machine-checked (Lean 4): (1) the dense semantics of a past formula at t depends on the input "
+             "signals up to t only (causality); (2) on the algorithms: the online operation classes (buffers, the online "
+             "intersection with remainders and its pending sample, pending segments and residual_start of the bounded operators) "
+             "are mirrored with their state as values (Rtamt/Dense/AlgOn.lean), and for every specification of the fragment "
+             "(variables, unary and binary point-wise operations with at most one constant operand, unbounded and bounded "
+             "once/historically, any nesting), all well-formed signals starting at 0 and EVERY cutting of them into successive "
+             "update() calls (per variable consecutive, possibly empty pieces) the concatenated output has non-decreasing time "
+             "stamps and equals rhoD at every time it covers, raises nothing, and two chunkings never disagree "
+             "(C05_online_mirror_partial, C05_online_total_partial, C05_chunkings_agree_partial). The proof attempt found the "
+             "genuine defect F48 (nested bounded operators fed in several updates), repaired by a fix: commit. Correspondence: the "
+             "real update() vs the mirror (every list every call returns, sample by sample) and vs rhoD for, per generated "
+             "(specification, signals), all chunkings at the input time stamps (up to 64; thorough 512) plus per-variable "
+             "chunkings, nested bounded operators on grid-spaced signals, and modular specifications under the chunkings.",
+        note="Lean kernel + standard axioms; the mirror is hand-written and tied to the code by exact correspondence of the returned "
+             "lists (no translator); the theorem leaves out since / since[a,b] (known finding F32), operations on two constants "
+             "(F30) and signals not starting at 0 (F37), which are excluded by region in the comparison with rhoD but not in the "
+             "comparison with the mirror.",
+        technique="Lean 4 proof (stream invariants of the online operation classes; structural induction over the specification, "
+                  "induction over the updates) + differential correspondence against the mirror and the proved semantics over "
+                  "exhaustive small-scope chunkings",
         design="DESIGN.md §4 C05"),
     "C19": dict(
         text="Machine-checked proof (Lean 4) that for formulas of the fragment (arithmetic, comparisons, Boolean, once/historically "
              "bounded or not, bounded eventually/always) the dense-time semantics of the step signal sampled with period P, read at "
-             "k*P, equals the discrete-time rho at sample k whenever k + hor < n. Correspondence: the real dense and the real "
+             "k*P, equals the discrete-time rho at sample k whenever k + hor < n; and, on the algorithms, that the list the mirror of "
+             "the dense offline visitor returns, read at k*P, is entry k of the list of the mirror of the discrete offline visitor "
+             "(C19_alg_dense_eq_discrete). Correspondence: the real dense and the real "
              "discrete offline monitors on the same grid signal, against each other and against both models.",
         note="Lean kernel + standard axioms; signals start at time 0; tie sampled.",
         technique="Lean 4 proof (window LUB over the reals = discrete maximum over grid points, via the step-function theory) + differential correspondence",
